@@ -152,6 +152,68 @@ class FaultySession:
             pass
 
 
+class FaultyStatements:
+    """Counts the SQL statements a backend executes *inside a db_retry-wrapped backend method* (the
+    operations redun promises to retry) and makes statement number `at` (1-based) fail once with a
+    sqlalchemy OperationalError before it reaches the database (a dropped connection / 'database
+    is locked'). Statements executed outside any db_retry wrapper are neither counted nor failed:
+    they are not 'retried operations'; connection-local PRAGMA statements are skipped too. `sites` labels each counted statement as
+    <innermost backend method>:<SQL verb>."""
+
+    def __init__(self, backend, at=None):
+        from sqlalchemy import event
+
+        self.backend = backend
+        self.at = at
+        self.count = 0
+        self.sites: list = []
+        self.fired = None
+        self._event = event
+        event.listen(backend.engine, "before_cursor_execute", self._before)
+        self._on = True
+
+    def _site(self):
+        import sys
+
+        f = sys._getframe(2)
+        inner = None
+        retried = False
+        while f is not None:
+            fn = f.f_code.co_filename
+            if fn.endswith("backends/db/__init__.py"):
+                if f.f_code.co_name == "wrapper" and "func" in f.f_locals and "_db_retries_attempt" in f.f_code.co_names:
+                    retried = True
+                elif inner is None and f.f_code.co_name not in ("wrapper", "wrapped"):
+                    inner = f.f_code.co_name
+            f = f.f_back
+        return inner or "?", retried
+
+    def _before(self, conn, cursor, statement, parameters, context, executemany):
+        inner, retried = self._site()
+        verb = statement.lstrip().split(None, 1)[0].upper() if statement.strip() else "?"
+        if not retried or verb == "PRAGMA":
+            # SQLite's connection-local PRAGMAs (defer_foreign_keys / foreign_keys) never touch the
+            # database file and are not issued on other dialects: not a place where a transient
+            # database error can occur
+            return
+        self.count += 1
+        s = f"{inner}:{verb}"
+        self.sites.append(s)
+        if self.at is not None and self.count == self.at and self.fired is None:
+            from sqlalchemy.exc import OperationalError
+
+            self.fired = f"{s}#{sum(1 for x in self.sites if x == s)}"
+            raise OperationalError(statement, parameters, Exception("injected transient failure"))
+
+    def remove(self):
+        if self._on:
+            self._on = False
+            try:
+                self._event.remove(self.backend.engine, "before_cursor_execute", self._before)
+            except Exception:  # noqa: BLE001
+                pass
+
+
 def reopen(backend):
     """Simulate process exit + restart: drop the session without committing, dispose the engine,
     open the file again."""
